@@ -102,6 +102,18 @@ pub fn one(id: &str, sub: &str, data: &[u8]) {
                 judge(id, sub, &c, v);
             }
         }
+        ("C05", "reply") => {
+            if let Some(c) = props::c05::decode_reply(data) {
+                let v = guarded(id, sub, &c, props::c05::check_reply);
+                judge(id, sub, &c, v);
+            }
+        }
+        ("C04", "core") => {
+            if let Some(c) = props::c04::decode_core(data) {
+                let v = guarded(id, sub, &c, props::c04::check_core);
+                judge(id, sub, &c, v);
+            }
+        }
         ("C07", "corrupt") => {
             if let Some(c) = props::c07::decode(data) {
                 let v = guarded(id, sub, &c, props::c07::check);
